@@ -195,17 +195,19 @@ def to_sexp(e):
 
 
 def norm_parts(parts):
-    """format.rs pushes a Str part before every placeholder (possibly empty) and a trailing one only if non-empty;
-    semantically only the concatenation matters, so adjacent/empty string parts are merged away."""
+    """the parts list exactly as src/build/format.rs builds it from the template text: a Str part (possibly empty)
+    is pushed before every placeholder, and a trailing Str part only if it is non-empty"""
     out = []
+    buf = ""
     for p in parts:
         if p[0] == "s":
-            if p[1] == "":
-                continue
-            if out and out[-1][0] == "s":
-                out[-1] = ("s", out[-1][1] + p[1])
-                continue
-        out.append(p)
+            buf += p[1]
+        else:
+            out.append(("s", buf))
+            buf = ""
+            out.append(p)
+    if buf != "":
+        out.append(("s", buf))
     return out
 
 
